@@ -439,7 +439,8 @@ theorem run_soffset_some (o : SOffset) (ho : o.wf = true) (hne : o ≠ .none) (i
 /-- `date_offset` fails: no sign-and-weekday, no day offset -/
 theorem run_date_offset_none' (inp : List Char) (H1 : run g_day_offset false inp = none)
     (H3 : run (.seq g_plus_or_minus g_wday) false inp = none) : run g_date_offset false inp = none := by
-  have ha1 : run (.seq (.seq g_plus_or_minus g_wday) g_day_offset) false inp = none := seq_none_left H3
+  have ha1 : run (.seq g_plus_or_minus (.seq g_wday g_day_offset)) false inp = none := by
+    rw [← run_seq_reassoc]; exact seq_none_left H3
   simp only [g_date_offset, run_rule, run_alt, Bool.or_self, ha1, H3, H1]
 
 /-- the optional date offset, present or not -/
